@@ -58,6 +58,21 @@ SOURCE_ANCHORS = [
      "claim_payment_internal compares the sum of the values with the recorded total"),
     ("lightning/src/ln/channelmanager.rs", r"(?s)if claimable_amt_msat != expected_amt_msat\.unwrap\(\) \{.{0,700}?valid_mpp = false;\s*\}\s*if valid_mpp \{",
      "a mismatch invalidates the claim (every remaining part is failed back)"),
+    # what the call sites pass as "now" / how often the grace period enters
+    ("lightning/src/ln/channelmanager.rs", r"inbound_payment::verify\(\s*payment_hash,\s*&payment_data,\s*onion_fields\.payment_metadata\.as_mut\(\),\s*self\.highest_seen_timestamp\.load\(Ordering::Acquire\) as u64,\s*&self\.inbound_payment_key,",
+     "process_receive_htlcs passes highest_seen_timestamp, unmodified, as the current time of verify"),
+    ("lightning/src/ln/channelmanager.rs", r"inbound_payment::create\(\s*&self\.inbound_payment_key,\s*min_value_msat,\s*invoice_expiry_delta_secs,\s*&self\.entropy_source,\s*self\.highest_seen_timestamp\.load\(Ordering::Acquire\) as u64,",
+     "create_inbound_payment passes highest_seen_timestamp, unmodified, as the current time of create"),
+    ("lightning/src/ln/channelmanager.rs", r"inbound_payment::create_from_hash\(\s*&self\.inbound_payment_key,\s*min_value_msat,\s*payment_hash,\s*invoice_expiry_delta_secs,\s*&self\.entropy_source,\s*self\.highest_seen_timestamp\.load\(Ordering::Acquire\) as u64,",
+     "create_inbound_payment_for_hash passes highest_seen_timestamp, unmodified"),
+    ("lightning/src/ln/inbound_payment.rs", r"[-+] 7200|7200 [-+]|_(?:add|sub)\(7200\)", "the 7200 s grace enters inbound_payment.rs exactly once (calculate_absolute_expiry)"),
+    ("lightning/src/ln/channelmanager.rs", r"[-+] 7200|7200 [-+]|_(?:add|sub)\(7200\)", "channelmanager.rs uses the 7200 s constant exactly once (the no-std clock of remove_stale_payments)"),
+    ("lightning/src/ln/inbound_payment.rs", r"calculate_absolute_expiry\(", "calculate_absolute_expiry: its definition and ONE use (twice in the text)", 2),
+    # the keysend guard: the preimage check is unconditional
+    ("lightning/src/ln/onion_payment.rs", r"let routing = if let Some\(payment_preimage\) = keysend_preimage \{(?:\s*//[^\n]*)*\s*let hashed_preimage = PaymentHash\(Sha256::hash\(&payment_preimage\.0\)\.to_byte_array\(\)\);\s*if hashed_preimage != payment_hash \{\s*return Err",
+     "a keysend preimage is checked against the payment hash unconditionally, before anything else is done with the HTLC"),
+    ("lightning/src/ln/onion_payment.rs", r"=>\s*\(payment_data, keysend_preimage, custom_tlvs, sender_intended_htlc_amt_msat,\s*cltv_expiry_height, payment_metadata, None, false, keysend_preimage\.is_none\(\), None, None\),",
+     "has_recipient_created_payment_secret = keysend_preimage.is_none(): a keysend HTLC's payment secret is not verified"),
 ]
 
 
@@ -70,12 +85,14 @@ def generate(ctx):
     if errors:
         raise RuntimeError("; ".join("%s: %s" % kv for kv in sorted(errors.items())))
     anchors = []
-    for rel, rx, what in SOURCE_ANCHORS:
+    for anc in SOURCE_ANCHORS:
+        rel, rx, what = anc[0], anc[1], anc[2]
+        want = anc[3] if len(anc) > 3 else 1
         src = open(os.path.join(core.REPO, rel)).read()
         n = len(re.findall(rx, src))
         anchors.append({"file": rel, "what": what, "matches": n})
-        if n != 1:
-            raise RuntimeError("source anchor '%s' matches %d times in %s (expected exactly 1): the hand model of the receive path is no longer known to follow the code" % (what, n, rel))
+        if n != want:
+            raise RuntimeError("source anchor '%s' matches %d times in %s (expected exactly %d): the hand model of the receive path is no longer known to follow the code" % (what, n, rel, want))
     ctx.gen_meta += [{"name": "anchor: " + a["what"], "kind": "source-anchor", "file": a["file"]} for a in anchors]
     return ctx.gen_meta
 
@@ -302,6 +319,84 @@ def secret_tier(ctx, model_ok):
 MODES = ["claim", "short", "over", "timeout", "failback", "blocks", "badsecret", "undertotal", "late",
          "skim", "skim_ticks", "skim_refused", "overshoot_lose_keep", "overshoot_lose_drop", "overshoot_ticks", "extra_part", "reannounce", "free"]
 MPP_TICKS = 3
+EDGE_MODES = ["cltv_edge", "mincltv_edge", "amount_edge", "expiry_edge", "keysend", "keysend_mpp", "keysend_vs_invoice"]
+MODES = MODES + EDGE_MODES
+TAIL = ["tick", "block 12", "tick", "block 6", "block 160", "tick"]
+
+
+def gen_edge(rng, mode):
+    """Boundary sweeps at every numeric acceptance threshold of the final-hop path and the keysend combinations.
+    Every probe is a payment of its own part (total = amount): accepted means PaymentClaimable at once; it is
+    failed back (fail_htlc_backwards) before the next probe."""
+    hfb = const_from_gen("HTLC_FAIL_BACK_BUFFER", 39)
+    amt = rng.choice([1_000_000, 3_000_000])
+    info = {"total": amt, "min": None, "cltvdelta": None, "mode": mode, "underpay": 0, "target": amt}
+    lines = []
+    via = lambda: rng.choice([1, 2])
+
+    def shuffled(l):
+        l = list(l)
+        for i in range(len(l) - 1, 0, -1):
+            j = rng.below(i + 1)
+            l[i], l[j] = l[j], l[i]
+        return l
+    if mode == "cltv_edge":
+        # expiry around height + HTLC_FAIL_BACK_BUFFER + 1 (an HTLC with final delta d expires at height + 1 + d)
+        lines.append("invoice -1 -1 7200")
+        for d in shuffled(range(hfb - 2, hfb + 4)):
+            if rng.chance(1, 3):
+                lines.append("block %d" % rng.choice([1, 2, 7]))
+            lines += ["part %d %d %d 0 0 d=%d" % (via(), amt, amt, d), "failback"]
+    elif mode == "mincltv_edge":
+        # ... and around height + the min_final_cltv_expiry_delta the payment was registered with
+        dd = rng.choice([hfb + 3, hfb + 3, 60, 144, 400, 900, hfb - 5])
+        info["cltvdelta"] = dd
+        lines.append("invoice -1 %d 7200" % dd)
+        for d in shuffled(range(dd - 4, dd + 2)):
+            if rng.chance(1, 3):
+                lines.append("block %d" % rng.choice([1, 3]))
+            lines += ["part %d %d %d 0 0 d=%d" % (via(), amt, amt, max(1, d)), "failback"]
+    elif mode == "amount_edge":
+        mn = rng.choice([1000, 1_000_000, 2_999_999])
+        info["min"] = mn
+        lines.append("invoice %d -1 7200" % mn)
+        for tot in shuffled([mn - 1, mn, mn + 1]):
+            lines += ["part %d %d %d %d 0" % (via(), tot, tot, rng.choice([0, 5])), "failback"]
+    elif mode == "expiry_edge":
+        # the node's clock is the highest block time it has seen; the payment is registered at t0 with
+        # invoice_expiry_delta_secs = delta and stays payable until t0 + delta + 7200 (one grace period)
+        t0 = rng.choice([0, 10, 5000])
+        delta = rng.choice([1, 100, 3600, 86400])
+        if t0:
+            lines.append("time %d" % t0)
+        lines.append("invoice -1 -1 %d" % delta)
+        steps = [t0 + delta - 1, t0 + delta, t0 + delta + 1, t0 + delta + 7199, t0 + delta + 7200, t0 + delta + 7201, t0 + delta + 14400, t0 + delta + 14401]
+        steps = [x for x in steps if x > t0] if rng.chance(1, 2) else steps[3:]
+        for tm in steps:        # (time only moves forward)
+            lines += ["time %d" % tm, "part %d %d %d %d 0" % (via(), amt, amt, rng.choice([0, 5])), "failback"]
+    elif mode in ("keysend", "keysend_vs_invoice"):
+        lines.append("invoice %d -1 7200" % amt)
+        kinds = [0, 1, 2] if mode == "keysend_vs_invoice" else [0, 1, 0, 1]
+        for kind in shuffled(kinds):
+            sflag = rng.choice([0, 1, 2]) if kind != 2 else rng.choice([2, 2, 1, 0])
+            tot = amt
+            lines.append("keysend %d %d %d %d %d" % (via(), amt, kind, sflag, tot))
+            lines.append(rng.choice(["claimks", "claimks", "tick"]))
+        if mode == "keysend_vs_invoice":
+            # the registered payment itself still works afterwards
+            lines += ["part %d %d %d 0 0" % (via(), amt, amt), "claim"]
+    elif mode == "keysend_mpp":
+        lines.append("invoice %d -1 7200" % amt)
+        for _ in range(rng.choice([1, 2])):
+            kind = rng.choice([0, 0, 1])
+            sflag = rng.choice([1, 1, 2])
+            half = amt // 2
+            lines.append("keysend 1 %d %d %d %d" % (half, kind, sflag, amt))
+            if rng.chance(1, 3):
+                lines.append("tick")
+            lines.append("keysend 2 %d 3 %d %d" % (amt - half, sflag, amt))
+            lines.append(rng.choice(["claimks", "claimks", "tick"]))
+    return lines + TAIL, info
 
 
 def split_parts(rng, total, target, nparts, subset_reaches):
@@ -333,6 +428,8 @@ def gen_script(rng, kind):
     """-> (script lines, info). One payment, hash interned as 1 in the model. Parts differ in the amount the
     sender intended (onion) and the amount received (skimmed / overpaid by the LSP-like forwarder), in their
     expiries, and the sets overshoot the committed total; ticks and blocks before and after PaymentClaimable."""
+    if kind in EDGE_MODES or (kind == "random" and rng.chance(1, 4)):
+        return gen_edge(rng, kind if kind in EDGE_MODES else rng.choice(EDGE_MODES))
     hfb = const_from_gen("HTLC_FAIL_BACK_BUFFER", 39)
     total = rng.choice([3_000_000, 1_000_000, 5_000_000])
     mn = rng.choice([None, total, total, total // 2])
@@ -430,37 +527,62 @@ def pid_of(ch, hid):
 
 def mpp_model_ops(lines, recs, hfb, underpay=0):
     """Builds the Coq op list from the script and what the harness observed (HTLC ids, amounts received,
-    skimmed fees, expiries, heights). Returns (ops as list of lists per command, start height)."""
+    skimmed fees, expiries, heights, payment-hash indices, block times). What `verify` says about a part is NOT
+    decided here: the op carries the Coq expression `recv_auth ...` over the regenerated predicates.
+    Returns (ops as list of lists per command, start height)."""
     ops = []
     mn, cd = None, None
+    t0, delta = 0, 7200
     h = None
     prev_h = recs[0]["height"] if recs else 0
+    ks_matches, ks_last = {}, None      # payment-hash index -> does the keysend preimage hash to it
+    last_ks_claimable = None
     for line, r in zip(lines, recs):
         t = line.split()
         cur = []
+        for c in r["claimable"]:
+            if c[4] == 1:
+                last_ks_claimable = c[3]
         if t[0] == "invoice":
             mn = None if int(t[1]) < 0 else int(t[1])
             cd = None if int(t[2]) < 0 else int(t[2])
+            delta = int(t[3]) if len(t) > 3 else 7200
+            t0 = r.get("now", 0)
             h = r["height"]
         elif t[0] == "part":
             amt, tot, flipped = int(t[2]), int(t[3]), t[5] != "0"
-            for (ch, hid, a, cltv, sk) in r["adds"]:
-                auth = (not flipped) and tot >= (mn or 0)
-                cur.append("Recv 1 %d %d %d %d %d {| f_secret := %d; f_total := %d; f_meta := -1; f_even := [] |} 9 %s %s %s %s"
-                           % (pid_of(ch, hid), cltv, cltv, a, amt, 8 if flipped else 7, tot, "true" if auth else "false",
+            for (ch, hid, a, cltv, sk, hx) in r["adds"]:
+                auth = "(recv_auth None (%s && verify_numeric_ok %d %d %d %d %d))" % ("false" if flipped else "true", tot, mn or 0, t0, delta, r.get("now", 0))
+                cur.append("Recv %d %d %d %d %d %d {| f_secret := %d; f_total := %d; f_meta := -1; f_even := [] |} 9 %s %s %s %s"
+                           % (hx, pid_of(ch, hid), cltv, cltv, a, amt, 8 if flipped else 7, tot, auth,
                               "None" if cd is None else "(Some %d)" % cd, "None" if sk == 0 else "(Some %d)" % sk,
                               "true" if underpay else "false"))
+        elif t[0] == "keysend":
+            amt, kind, sflag = int(t[2]), int(t[3]), int(t[4])
+            tot = int(t[5]) if len(t) > 5 and not t[5].startswith("d=") else amt
+            for (ch, hid, a, cltv, sk, hx) in r["adds"]:
+                if kind == 3 and ks_last is not None:
+                    matches, tag = ks_last
+                else:
+                    matches, tag = (kind == 0), pid_of(ch, hid)
+                ks_last = (matches, tag)
+                cur.append("Recv %d %d %d %d %d %d {| f_secret := %d; f_total := %d; f_meta := -1; f_even := [] |} %d (recv_auth (Some %s) false) None %s %s"
+                           % (hx, pid_of(ch, hid), cltv, cltv, a, amt, {0: -1, 1: 55, 2: 7}[sflag], tot, 100000 + tag,
+                              "true" if matches else "false", "None" if sk == 0 else "(Some %d)" % sk, "true" if underpay else "false"))
         elif t[0] == "tick":
             cur.append("Tick")
-        elif t[0] in ("block", "deadline"):
+        elif t[0] in ("block", "deadline", "time"):
             for hh in range(prev_h + 1, r["height"] + 1):
                 cur.append("Block %d" % hh)
-        elif t[0] in ("claim", "claimknown") and r.get("skipped"):
+        elif t[0] in ("claim", "claimknown", "claimks") and r.get("skipped"):
             pass        # the harness did not call claim_funds: no PaymentClaimable covers the held parts (API misuse)
         elif t[0] == "claim":
             cur.append("Claim 1 false")
         elif t[0] == "claimknown":
             cur.append("Claim 1 true")
+        elif t[0] == "claimks":
+            if last_ks_claimable is not None:
+                cur.append("Claim %d false" % last_ks_claimable)
         elif t[0] == "failback":
             cur.append("FailBack 1")
         ops.append(cur)
@@ -477,10 +599,15 @@ def mpp_judge(lines, recs, info, hfb):
     ann = None        # the last PaymentClaimable: amount, deadline, parts, intact (no announced part lost since), live
     mn = info["min"]
     underpay = info.get("underpay", 0)
+    t0, delta = 0, 7200
     for idx, (line, r) in enumerate(zip(lines, recs)):
         t = line.split()
         if r.get("skipped"):
             t = ["skipped-claim"]
+        if t[0] == "invoice":
+            t0, delta = r.get("now", 0), (int(t[3]) if len(t) > 3 else 7200)
+        # only what concerns the registered payment (hash index 1); keysend payments: edge_judge
+        r = dict(r, claimable=[c for c in r["claimable"] if c[3] == 1], claimed=[c for c in r["claimed"] if c[2] == 1])
 
         def bad(why):
             fails.append({"cmd_index": idx, "cmd": line, "why": why, "observed": r})
@@ -490,13 +617,23 @@ def mpp_judge(lines, recs, info, hfb):
             flipped = t[5] != "0"
             tot = int(t[3])
             intended = int(t[2])
-            for (ch, hid, a, cltv, sk) in r["adds"]:
+            for (ch, hid, a, cltv, sk, hx) in r["adds"]:
                 paid_enough = a >= intended if not underpay else a + sk >= intended
-                good = (not flipped) and tot >= (mn or 0) and paid_enough
+                # the per-part checks as the property states them: authentic, total >= registered minimum, not
+                # expired by more than the one grace period, a claim window of >= 2 blocks, the registered final CLTV delta
+                in_time = r.get("now", 0) <= t0 + delta + 7200
+                window = cltv - hfb >= r["height"] + 2 and (info.get("cltvdelta") is None or cltv >= r["height"] + info["cltvdelta"])
+                good = (not flipped) and tot >= (mn or 0) and paid_enough and in_time and window
                 parts[pid_of(ch, hid)] = {"amt": a, "intended": intended, "skim": sk, "cltv": cltv, "good": good, "state": "held", "total": tot, "ch": ch}
                 if not good and [ch, hid] not in r["fails"]:
-                    bad("a part with a wrong secret / under-committed total / less than the sender intended%s was not failed back at once"
-                        % (" (no accept_underpaying_htlcs)" if not underpay else " even counting the declared skimmed fee"))
+                    why = ("its payment secret does not verify" if flipped else
+                           "its total %d is below the registered minimum %d" % (tot, mn or 0) if tot < (mn or 0) else
+                           "it carries less than the sender intended" if not paid_enough else
+                           "the payment expired %d s ago (registered expiry + the 7200 s grace = %d, now %d)" % (r.get("now", 0) - (t0 + delta + 7200), t0 + delta + 7200, r.get("now", 0)) if not in_time else
+                           "its expiry %d leaves no claim window at height %d (fail-back height %d; registered final CLTV delta %s)" % (cltv, r["height"], cltv - hfb, info.get("cltvdelta")))
+                    bad("a part that must be refused (%s) was not failed back at once" % why)
+                if good and [ch, hid] in r["fails"] and info.get("mode", "").endswith("_edge"):
+                    bad("a part that passes every per-part check (authentic, total >= minimum, in time, claim window) was failed back")
         failed_now = []
         for (ch, hid) in r["fails"]:
             p = parts.get(pid_of(ch, hid))
@@ -530,7 +667,9 @@ def mpp_judge(lines, recs, info, hfb):
                     bad("part(s) %s of a claimable payment were failed back by '%s'" % (lost, t[0]))
                 ann["intact"] = False
         held = {k: p for k, p in parts.items() if p["state"] == "held"}
-        for (amount, deadline, skimmed) in r["claimable"]:
+        for (amount, deadline, skimmed, _hx, _kind, pre_ok) in r["claimable"]:
+            if pre_ok == 0:
+                bad("PaymentClaimable names a preimage that does not hash to the payment hash")
             if any(not p["good"] for p in held.values()):
                 bad("PaymentClaimable for a set containing a part that fails the per-part checks")
             if not held:
@@ -573,7 +712,7 @@ def mpp_judge(lines, recs, info, hfb):
                 bad("preimage released without PaymentClaimed")
             if r["claimed"] and not ful:
                 bad("PaymentClaimed without any preimage released")
-            for (camt, chtlcs) in r["claimed"]:
+            for (camt, chtlcs, _chx) in r["claimed"]:
                 if camt != sum(parts[k]["amt"] for k in ful):
                     bad("PaymentClaimed amount %d is not the sum of the amounts of the fulfilled parts (%d)" % (camt, sum(parts[k]["amt"] for k in ful)))
                 if ann is None:
@@ -609,10 +748,70 @@ def mpp_judge(lines, recs, info, hfb):
     return fails
 
 
+def edge_judge(lines, recs, info, hfb):
+    """Rules that hold for every payment hash, keysend payments included: a fulfil names a preimage of the HTLC's
+    own payment hash; a keysend HTLC is held only if its preimage hashes to the payment hash; PaymentClaimable names a
+    preimage of the payment hash; claiming it fulfils exactly the held parts for the announced amount."""
+    fails = []
+    ks = {}          # pid -> {"hx", "matches", "state"}
+    last_matches = None
+    ann = {}         # hx -> (amount, parts)
+    last_ks_hx = None
+    for idx, (line, r) in enumerate(zip(lines, recs)):
+        t = line.split()
+
+        def bad(why):
+            fails.append({"cmd_index": idx, "cmd": line, "why": why, "observed": r})
+        if r.get("badfulfill"):
+            bad("%d update_fulfill_htlc message(s) carry a preimage that does not hash to the HTLC's payment hash" % r["badfulfill"])
+        if t[0] == "keysend":
+            kind = int(t[3])
+            matches = last_matches if (kind == 3 and last_matches is not None) else (kind == 0)
+            last_matches = matches
+            for (ch, hid, a, cltv, sk, hx) in r["adds"]:
+                ks[pid_of(ch, hid)] = {"hx": hx, "matches": matches, "state": "held", "amt": a}
+                if not matches and [ch, hid] not in r["fails"]:
+                    bad("a keysend HTLC whose preimage does not hash to its payment hash (payment secret %s) was not failed back at once"
+                        % {"0": "absent", "1": "present", "2": "present: the registered invoice's"}[t[4]])
+        for (ch, hid) in r["fails"]:
+            if pid_of(ch, hid) in ks:
+                ks[pid_of(ch, hid)]["state"] = "failed"
+        ful = set()
+        for (ch, hid) in r["fulfills"]:
+            if pid_of(ch, hid) in ks:
+                if ks[pid_of(ch, hid)]["state"] == "failed":
+                    bad("the preimage was released on a keysend part that had been failed back")
+                ks[pid_of(ch, hid)]["state"] = "fulfilled"
+                ful.add(pid_of(ch, hid))
+        for (amount, deadline, skimmed, hx, kind, pre_ok) in r["claimable"]:
+            if pre_ok == 0:
+                bad("PaymentClaimable names a preimage that does not hash to the payment hash")
+            if kind == 1:
+                held = {k: p for k, p in ks.items() if p["hx"] == hx and p["state"] == "held"}
+                if pre_ok != 1:
+                    bad("PaymentClaimable for a keysend payment without a matching preimage")
+                if any(not p["matches"] for p in held.values()) or not held:
+                    bad("PaymentClaimable for a keysend payment holding a part whose preimage does not hash to the payment hash")
+                if sum(p["amt"] for p in held.values()) != amount:
+                    bad("keysend PaymentClaimable amount is not the sum of the held parts")
+                ann[hx] = (amount, sorted(held))
+                last_ks_hx = hx
+        if t[0] == "claimks" and not r.get("skipped") and last_ks_hx in ann:
+            amount, parts_ = ann.pop(last_ks_hx)
+            got = [c for c in r["claimed"] if c[2] == last_ks_hx]
+            if not got or got[0][0] != amount or sorted(ful) != parts_:
+                bad("claim_funds of a keysend payment did not claim exactly the announced parts / amount")
+    for k, p in ks.items():
+        if p["state"] == "held" and not p["matches"]:
+            fails.append({"cmd_index": len(lines) - 1, "cmd": "(end)", "why": "a keysend part with a wrong preimage is still held", "observed": {}})
+            break
+    return fails
+
+
 def mpp_tier(ctx, model_ok):
     rng = ctx.rng.fork("mpp")
     hfb = const_from_gen("HTLC_FAIL_BACK_BUFFER", 39)
-    n = 160 if ctx.tier == "quick" else 3000
+    n = 220 if ctx.tier == "quick" else 3000
     from concurrent.futures import ThreadPoolExecutor
     jobs = []
     kinds = MODES * 3
@@ -634,7 +833,7 @@ def mpp_tier(ctx, model_ok):
             fails.append({"script": lines, "why": "harness produced %d records for %d commands" % (len(recs), len(lines))})
             continue
         nsteps += len(lines)
-        jf = mpp_judge(lines, recs, info, hfb)
+        jf = mpp_judge(lines, recs, info, hfb) + edge_judge(lines, recs, info, hfb)
         if jf:
             fails.append({"script": lines, "info": info, "failures": jf[:3], "why": jf[0]["why"]})
         ops, h0 = mpp_model_ops(lines, recs, hfb, info.get("underpay", 0))
@@ -655,8 +854,8 @@ def mpp_tier(ctx, model_ok):
                     step = model[mi]
                     mi += 1
                     outs += step[:step.index([-3])]
-                m_claimable = sorted([o[2], o[3]] for o in outs if o[0] == 1)
-                r = dict(r, claimable=[c[:2] for c in r["claimable"]])
+                m_claimable = sorted([o[1], o[2], o[3]] for o in outs if o[0] == 1)
+                r = dict(r, claimable=[[c[3], c[0], c[1]] for c in r["claimable"]])
                 m_claimed = sorted(o[2] for o in outs if o[0] == 2)
                 m_ful = sorted(o[1] for o in outs if o[0] == 3)
                 m_fail = sorted(o[1] for o in outs if o[0] == 4)
